@@ -10,6 +10,7 @@ import Frrs.Oracle
 import Frrs.Props.C15
 import Frrs.Proofs.CliValues
 import Frrs.Validate
+import Frrs.Proofs.Pipes
 namespace Frrs.C06
 open Frrs
 set_option linter.unusedSimpArgs false
@@ -157,5 +158,11 @@ example : parseMaxBlobSize b!"" = none ∧ parseMaxBlobSize b!"K" = none ∧ par
 /-- a limit of zero bytes (which would strip every non-empty blob and is almost certainly a typo) is refused -/
 theorem zero_limit_refused (o : FOpts) (nd : Bool) : validOptions { o with maxBlob := some 0 } nd = false := by
   simp [validOptions]
+
+
+/-- the tool switches the exporter to `--no-data` on its own only when it writes back into the repository it reads —
+    elsewhere the target has no object store to look sizes and ids up in (model of pipes.rs, Frrs/Pipes.lean) -/
+theorem auto_no_data_only_in_place (o : Cli.CliOpts) (h : Pipes.samePath o.source o.target = false) : Pipes.autoNoData o = false :=
+  Pipes.auto_no_data_needs_same_repository o h
 
 end Frrs.C06
